@@ -249,7 +249,8 @@ def run_conditional(case):
         pts = np.c_[line, np.full_like(line, g)] if dim == 0 else np.c_[np.full_like(line, g), line]
         dmax = float(np.max(pdf_T_ref(m, pts)))
         detail = dict(detail, peak_joint_density_on_conditioning_line=dmax)
-        sig = {"check": "mc_conditional", "clause": clause, "dim": dim, "peak_joint_density_below_1e-3": bool(dmax < 1e-3)}
+        sig = {"check": "mc_conditional", "clause": clause, "dim": dim, "peak_joint_density_below_1e-3": bool(dmax < 1e-3),
+               "peak_joint_density_below_1e-4": bool(dmax < 1e-4), "peak_joint_density_below_2e-5": bool(dmax < 2e-5)}
         if "sample_max" in detail:
             # second witness: does the sampled range end where the joint density still exceeds the sampler's own threshold
             # (range cut inside the support = the repaired x_max defect) or below it (absolute-threshold tail loss)?
@@ -258,10 +259,21 @@ def run_conditional(case):
             dsm = float(pdf_T_ref(m, pt)[0])
             detail["joint_density_at_sample_max"] = dsm
             sig["range_ends_above_sampler_threshold"] = bool(dsm > 1.5e-7)
+        if state.get("smp") is not None and len(state["smp"]) >= 1000 and clause in ("conditional_sample_distribution", "upper_tail_truncated"):
+            # third witness: is the sample the exact conditional merely TRUNCATED to the sampled range (pure tail loss), or is
+            # its shape wrong inside the range as well?
+            xs_ = np.sort(state["smp"])
+            pe = np.clip(np.asarray(state["exact"](xs_), dtype=float), 0, 1)
+            span = pe[-1] - pe[0]
+            if span > 0:
+                dtr = stats.sup_distance((pe - pe[0]) / span)
+                detail["sup_distance_to_exact_truncated_to_sampled_range"] = dtr
+                sig["shape_exact_within_sampled_range"] = bool(dtr <= stats.dkw_eps(len(xs_)))
         sig.update(extra)
         if not any(v["sig"] == sig for v in viol):
             viol.append({"sig": sig, "detail": detail, "case": case})
 
+    state = {}
     # conditioning value: marginal quantile of the conditioning variable
     if dim == 1:
         g = float(m.distributions[0].icdf(q))       # Hs value
@@ -289,6 +301,7 @@ def run_conditional(case):
             bad("could_not_sample", {"given": g, "quantile_of_given": q})
             return {"viol": viol, "n": 1, "nontrivial": 1, "outcomes": ["could_not_sample"]}
     n = 2
+    state.update(smp=smp, exact=exact)
     if len(smp) != n_s:
         bad("sample_size", {"requested": n_s, "got": len(smp), "warnings": [str(w.message)[:80] for w in wl][:2]})
     if not np.array_equal(smp, smp2):
@@ -394,7 +407,7 @@ def main(ctx):
     ctx.rule = ("(a) the three shipped transform pairs on an 11x11 (21x21 thorough) log grid over (1e-3,1e2)^2 against mpmath, both "
                 "predefined Jacobians analytically and by central differences; (b) three Hs-steepness models: pdf on a 6x6 quantile "
                 "grid, integral, sample, cdf and empirical cdf at 2 (4) points; (c) conditional_sample/cdf/icdf for dim in {0,1} x "
-                "conditioning quantile {.01,.5,.99,1-1e-4,1-1e-6} x n x seed; (d) IFORMContour(t_model) for alpha x n_points x "
+                "conditioning quantile {.01,.5,.99,1-1e-4,1-1e-6} x n x seed, plus a dense tail sweep of the conditioning quantile 1-10^-k, k=1..6 step 0.25; (d) IFORMContour(t_model) for alpha x n_points x "
                 "precision_factor x random_state, each constructed twice under different global RNG states. evaluations = calls.")
     ctx.assumptions = ["exact conditional Tz|Hs in closed form through the steepness distribution; Hs|Tz by Gauss-Legendre quadrature",
                        "DKW / exact-binomial bands at error probability 1e-12; tail coverage: sample max beyond the (1-27.6/n)-quantile",
@@ -412,6 +425,16 @@ def main(ctx):
                     for seed in ((0,) if (q and dim == 0) else ((1,) if q else (0, 1, 2))):
                         lv = [0.5, 0.99] if (qq in (0.5, 0.99) and n_s == 10000 and seed in (0, 1)) else []
                         cases.append({"kind": "conditional", "model": name, "dim": dim, "q": qq, "n": n_s, "seed": (seed + s) if seed else 0, "levels": lv})
+    # dense sweep of the conditioning value into the tail (exceedance 10^-k, k = 1 .. 6 in steps of 0.25): the sampler's
+    # range search proceeds on a geometric grid, so a defect may live in a narrow window of conditioning values only
+    for name in (("windmeier",) if q else ("windmeier", "nonzero")):
+        for k4 in range(4, 25):
+            qq = 1 - 10 ** (-k4 / 4)
+            if any(abs(qq - q0) < 1e-12 for q0 in (0.99, 1 - 1e-4, 1 - 1e-6)):
+                continue
+            cases.append({"kind": "conditional", "model": name, "dim": 1, "q": qq, "n": 10000, "seed": 1 + s, "levels": []})
+            if k4 <= 16:
+                cases.append({"kind": "conditional", "model": name, "dim": 0, "q": qq, "n": 10000, "seed": 1 + s, "levels": []})
     # integer-typed conditioning values (python int, integer array) at ordinary values
     for name in ("windmeier",) if q else ("windmeier", "nonzero"):
         for dim in (0, 1):
